@@ -332,10 +332,14 @@ def _is_subtype_of(t1, t2):
         return all(_is_subtype_of(t, t2) for t in u.types)
     elif i := _composite(t2, "intersection"):
         return all(_is_subtype_of(t1, t) for t in i.types)
-    elif u := _composite(t2, "union"):
-        return any(_is_subtype_of(t1, t) for t in u.types)
+    elif (u := _composite(t2, "union")) and any(
+        _is_subtype_of(t1, t) for t in u.types
+    ):
+        return True
     elif i := _composite(t1, "intersection"):
         return any(_is_subtype_of(t, t2) for t in i.types)
+    elif u:
+        return False
     else:
         return typeorder(t1, t2) in (Order.LESS, Order.SAME)
 
